@@ -123,7 +123,7 @@ def _validated_resource_itself_rule(ctx, res) -> None:
         n += 1
         found, confined = [], []
         for g in common.with_private_helpers(idx, m):
-            ps = param_names(g.node)[1:] if g.cls is not None else param_names(g.node)
+            ps = g.call_params()
             if not ps:
                 continue
             p0 = ps[0]
@@ -255,7 +255,7 @@ def _check_main(ctx, res) -> None:
         if not mut_nodes:
             continue
         n131 += 1
-        params = param_names(m.node)[1:]
+        params = m.call_params()
         bad = None
         for mn, kind in mut_nodes:
             def notifies(n, kind=kind):
@@ -454,7 +454,7 @@ def _check_main(ctx, res) -> None:
         if isinstance(t, ast.Call) and is_self_attr(t.func) and len(t.args) == 1:
             h = fro.methods.get(t.func.attr)
             if h is not None:
-                ps = param_names(h.node)[1:]
+                ps = h.call_params()
                 rets = [r.value for r in walk_local(h.node) if isinstance(r, ast.Return) and r.value is not None]
                 if len(ps) == 1 and len(rets) == 1 and isinstance(rets[0], ast.Compare) and isinstance(rets[0].ops[0], ast.In) \
                         and isinstance(rets[0].left, ast.Attribute) and rets[0].left.attr == "parent" \
